@@ -25,11 +25,12 @@ from . import c07_util as U
 ANCHOR_FILES = ['spatialpandas/geometry/base.py', 'spatialpandas/spatialindex/rtree.py',
                 'spatialpandas/utils.py', 'spatialpandas/geoseries.py',
                 'spatialpandas/spatialindex/hilbert_curve.py']
-TRUSTED = ['binary64 arithmetic is exact in the exact-scaling regime (|width| a power of two, operands '
-           '< 2^52 units): re-checked operation by operation with exact rationals on sampled rows',
-           'self.bounds / self.total_bounds are what C13 proves them to be (taken from the real array)',
-           'float -> int64 conversion of NaN is platform-defined: NaN mid-points are modelled-not-verified '
-           '(the run only checks that they do not affect other rows)']
+TRUSTED = ['numba\'s compiled float64 arithmetic is IEEE-754 binary64 in source order (no FMA contraction, no '
+           'reassociation) and float->int64 of NaN gives INT64_MIN (x86-64): validated bit-for-bit against the '
+           'primitive-float model coq/Model/FloatData2Coord.v on every run (harness/c08_float.py)',
+           'Coq.Floats.FloatAxioms / Uint63 specifications of the kernel\'s primitive floats and integers '
+           '(standard-library axioms used by the C08_f_* theorems)',
+           'self.bounds / self.total_bounds are what C13 proves them to be (taken from the real array)']
 
 IMPORTS = 'Model.Num Model.Bounds Model.Hilbert Model.Data2Coord'
 CASE_TY = 'Z * arrview * option pyseq * nat'
@@ -641,6 +642,16 @@ def run(rep):
                       'hilbert_distance (rows in the exact regime / caller\'s sequence afterwards) differs '
                       'from the proven model', {**metas[i], 'model': model})
     rep.extra['p_values_used'] = sorted(int(k[2:]) for k in rep.hist if k.startswith('p='))
+    # ---- the bit-exact binary64 model on arbitrary float64 inputs (harness/c08_float.py)
+    try:
+        from . import c08_float
+        c08_float.run_float_d2c(rep)
+    except C.ModelUnavailable:
+        raise
+    except Exception as e:
+        import traceback
+        rep.violation('harness-error:float-d2c', 'the bit-exact float check crashed: ' +
+                      traceback.format_exc()[-1500:], {'float_d2c': True, 'error': repr(e)})
 
 
 def short_sequences(rep, cases, results, metas):
@@ -1030,6 +1041,10 @@ def series_agrees(rep, meta, arr, tbobj, p, res):
 
 
 def replay(rep, rp):
+    if rp.get('float_d2c'):
+        from . import c08_float
+        return c08_float.replay(rep, rp)
+
     def un(e):
         if isinstance(e, list):
             return [un(x) for x in e]
